@@ -147,6 +147,62 @@ def chainLine (kind s : String) (targets : List String) : String :=
     "ok " ++ " ".intercalate m ++ " | ok " ++ " ".intercalate sp
   | _, _ => bad
 
+def le64 (n : Nat) : ByteArray :=
+  ByteArray.mk ((List.range 8).map (fun i => UInt8.ofNat ((n >>> (8 * i)) % 256))).toArray
+
+/-- the stand-in block root of a slot in `dom` lines: the slot as 8 little-endian bytes, four times -/
+def slotRoot (t : Nat) : ByteArray := le64 t ++ le64 t ++ le64 t ++ le64 t
+
+/-- `dom S gvr t…`: per target slot what the state's fork record yields through `Fork.GetDomain` for the
+epochs around the state's epoch, and whether an envelope signed under the state-derived proposer domain passes
+`VerifySignature`. Model: `domainVersion` on the modelled fork record + the regenerated `ForkVersion`;
+specification: the version of `forkAt(epoch)` wherever the two-version fork record can reach, and `true`. -/
+def domLine (s gvrH : String) (targets : List String) : String :=
+  let bad := "bad-op"
+  match parseSchedule s, parseHex gvrH, targets.mapM parseU64 with
+  | some (spe, c), some gvr, some ts =>
+    let f0 := forkAt c 0
+    if ts.isEmpty || !decide c.Monotone || gvr.size != 32 || spe = 0 || f0 = .electra || f0 = .fulu then bad else
+    let init : FState := { ty := f0, prev := c.versionOf f0, cur := c.versionOf f0, epoch := 0, slot := 0 }
+    let dom (v : UInt32) := computeDomain H DOMAIN_BEACON_PROPOSER v gvr
+    let rec go (st : Res FState) (ts : List UInt64) (accM accS : List String) : List String × List String :=
+      match ts with
+      | [] => (accM.reverse, accS.reverse)
+      | t :: rest =>
+        match st with
+        | .ok s0 =>
+          if t.toNat ≤ s0.slot.toNat then (("err" :: accM).reverse, ("err" :: accS).reverse) else
+          match processSlots genUpgrade genSupported c spe (t.toNat - s0.slot.toNat) s0 with
+          | .ok s' =>
+            let e := t.toNat / spe.toNat
+            let f := forkAt c e
+            let judged := !(f = .electra || f = .fulu ||
+              Fork.all.any (fun g => c.epochOf g * spe.toNat ≥ 2^64 && (c.epochOf g * spe.toNat) % 2^64 ≤ t.toNat))
+            let one (me : Nat) (present : Bool) : String × String :=
+              if !present then ("-", "-") else
+              let m := toHex (dom (domainVersion s' (UInt64.ofNat me)))
+              -- within the record's reach: from the preceding fork's epoch up to the state's epoch
+              let reach := judged && me ≤ e && (f = f0 || c.epochOf f.pred ≤ me)
+              (m, if reach then toHex (dom (versionAt c me)) else m)
+            let a := one (e - 1) (e != 0)
+            let b := one e true
+            let d := one (e + 1) true
+            -- the envelope: digest from the state's current version, signed under the state's domain for e
+            let signedMsg := signingRoot H (slotRoot t.toNat) (dom (domainVersion s' (UInt64.ofNat e)))
+            let bls (m : ByteArray) : Bool := decide (m = signedMsg)
+            let vm := match Gen.GoFuns.ForkVersion (goSpec spe c) t with
+              | .ok v => boolStr (verifyEnvelopeVersioned H bls v gvr 3 3 (forkDigest H s'.cur gvr) (slotRoot t.toNat))
+              | r => r.render hexU32
+            let vs := if judged then "true" else vm
+            let pre := toString t.toNat ++ ":"
+            go (.ok s') rest ((pre ++ ",".intercalate [a.1, b.1, d.1, vm]) :: accM) ((pre ++ ",".intercalate [a.2, b.2, d.2, vs]) :: accS)
+          | .panic => (("panic" :: accM).reverse, ("panic" :: accS).reverse)
+          | _ => (("err" :: accM).reverse, ("err" :: accS).reverse)
+        | _ => (accM.reverse, accS.reverse)
+    let (m, sp) := go (.ok init) ts [] []
+    "ok " ++ " ".intercalate m ++ " | ok " ++ " ".intercalate sp
+  | _, _, _ => bad
+
 def c14Line (line : String) : String :=
   let toks := tokens line
   let bad := "bad-op"
@@ -197,6 +253,7 @@ def c14Line (line : String) : String :=
     | _, _, _ => bad
   | "chain" :: s :: targets => chainLine "chain" s targets
   | "chaing" :: s :: targets => chainLine "chaing" s targets
+  | "dom" :: s :: gvr :: targets => domLine s gvr targets
   | ["env", fork, _seed] =>
     match Fork.ofName? fork with
     | some f =>
